@@ -103,3 +103,43 @@ contract(
     modifies=["self.ghost_ckpt_writes"],
     ensures=["self.ghost_ckpt_writes == old(self.ghost_ckpt_writes)"],
 )
+
+# ---- the constructor wires the handler: all three signals of the property
+# ---- statement reach safe_exit, and the exit code it uses is the configured
+# ---- one (a fresh, non-resuming construction; the resume branch is C11's)
+from pyvc.contracts import shape, Contract   # noqa: E402
+shape("FSModelAbs", {"allow_vectorised": "Bool",
+                     "likelihood_chunksize": "Any",
+                     "allow_multi_valued_likelihood": "Any",
+                     "parallelise_prior": "Any"}, methods={
+    "configure_pool": Contract(
+        "<abstract>", "FSModelAbs.configure_pool",
+        params={"n_pool": "Any", "pool": "Any"}, trusted=True,
+        trusted_reason="pool configuration (C10)"),
+})
+shape("FlowSamplerInit", {}, cls="FlowSampler")
+contract(
+    FSP, "FlowSampler.__init__", props=["C13"], self_shape="FlowSamplerInit",
+    params={"model": "Obj(FSModelAbs)", "output": "Any",
+            "importance_nested_sampler": "Bool",
+            "resume": ("const", False), "resume_file": "Any",
+            "resume_data": "None", "weights_file": "None",
+            "weights_path": "None", "signal_handling": "Bool",
+            "exit_code": "Int", "pytorch_threads": "Int",
+            "close_pool": "Bool", "eps": "None", "torch_dtype": "Any",
+            "disable_vectorisation": "Bool", "likelihood_chunksize": "Any",
+            "allow_multi_valued_likelihood": "Any",
+            "parallelise_prior": "Any", "result_extension": "Any",
+            "**kwargs": {}},
+    opaque_callees=["configure_threads", "set_torch_default_dtype",
+                    "save_kwargs", "NestedSampler",
+                    "ImportanceNestedSampler"],
+    modifies=["model"],      # (self is under construction: no frame)
+    ensures=[
+        "self.exit_code == exit_code",
+        "implies(signal_handling, "
+        "handler_of('SIGTERM', self, 'safe_exit') and "
+        "handler_of('SIGINT', self, 'safe_exit') and "
+        "handler_of('SIGALRM', self, 'safe_exit'))",
+    ],
+)
